@@ -194,6 +194,9 @@ def function_level_inputs(tier):
         stems += [list(t) for t in itertools.product(sub, repeat=3)]
     w4 = words("ht:/", 4)
     stems += [list(t) for t in itertools.product(w4, repeat=2)]
+    det = list(dict.fromkeys(det))
+    lcp = list(dict.fromkeys(lcp))
+    stems = [list(t) for t in dict.fromkeys(tuple(x) for x in stems)]
     return det, lcp, stems
 
 
@@ -829,7 +832,8 @@ def run(tier, seed, replay=None):
     # ---------------- vm_compute cross-check ----------------
     vm_n = 0
     if mb is not None and rp is None and vm_cases:
-        vm_n, mism, log = core.vm_crosscheck(vm_cases, "c17", per_file=4, timeout=900)
+        _, mism, log = core.vm_crosscheck(vm_cases, "c17", per_file=4, timeout=900)
+        vm_n = sum(len(i) if n != "c17_graph" else 1 for n, i, o in vm_cases)
         if mism:
             run.internal_errors.append("extracted binary and vm_compute disagree (C17): %s %s" % (mism[:5], log[-300:]))
     if mb is not None:
@@ -887,6 +891,7 @@ def run(tier, seed, replay=None):
                        "extraction_errors": stats["impl_errors"], "reader_monitor_skips": reader_bad},
         "known_finding_hits": known_hits,
         "vm_compute_crosschecked": vm_n,
+        "vm_compute_crosschecked_unit": "function-level rows + whole-graph cases re-evaluated inside Coq",
         "disagreements_model_vs_impl": len(corr_fail),
         "oracle_failures": len(spec_fail),
         "first_disagreements": [w for w, _ in corr_fail[:5]],
